@@ -65,6 +65,13 @@ MUT = {
     "c10_clone_shares_parts": ("C10_doc", [(C, "        clone = deepcopy(self)\n        clone.path = None", "        import copy as _copy\n        clone = _copy.copy(self)\n        clone.path = None")]),
     "c10_clone_shares_xmlparts": ("C10_doc", [(D, '            elif name == "_Document__xmlparts":\n                setattr(clone, name, {})', '            elif name == "_Document__xmlparts":\n                setattr(clone, name, self.__xmlparts)')]),
     "c10_xmlpart_clone_stale": ("C10_doc", [(X, "                setattr(clone, name, deepcopy(self.__tree))", "                setattr(clone, name, None)")]),
+    # ---- round 8: document-level items, clone stamping the original, memoised pretty tree, flat export of unread pictures
+    "c03_serialize_root_only": ("C03", [(X, '        bytes_tree = tostring(tree, encoding="unicode").encode("utf8")', '        bytes_tree = tostring(tree.getroot(), encoding="unicode").encode("utf8")')]),
+    "c10_clone_stamps_generator": ("C10_doc", [(D, "                container = self.container.clone\n                for path, part in self.__xmlparts.items():", "                self.meta.set_generator_default()\n                container = self.container.clone\n                for path, part in self.__xmlparts.items():")]),
+    "c11_pretty_memo": ("C11", [(X, "        tree = self._get_tree()\n        root = deepcopy(tree.getroot())\n        return pretty_indent(root)",
+                                 "        if getattr(self, '_memo', None) is None:\n            tree = self._get_tree()\n            root = deepcopy(tree.getroot())\n            self._memo = pretty_indent(root)\n        return self._memo")]),
+    "c11_flat_skips_unread_pictures": ("C11", [(C, "        for path in self.parts:\n            if path not in parts:\n                self.get_part(path)\n",
+                                                "        for path in self.parts:\n            if path not in parts and not (packaging == 'xml' and '/' in path):\n                self.get_part(path)\n")]),
 }
 REWRITE = {
     "r_c04_zip_loop_items": (["C04", "C03"], [(C, "            for path in part_names:\n                data = parts[path]\n", "            for path, data in [(p_, parts[p_]) for p_ in part_names]:\n")]),
